@@ -12,11 +12,13 @@ from fractions import Fraction
 import z3
 
 from . import theory
+from . import containers   # containers
 from .values import (BoundBuiltin, ClassV, EnumV, ExcV, ExtV, FlagV, FuncV, InterpError, LambdaV,
                      ModV, Opaque, SObj, SymFloat, Unsupported, as_int, as_z3bool, as_z3int,
                      as_z3real, is_boollike, is_fraclike, is_intlike, is_sym_bool, is_sym_int,
                      is_sym_real, is_z3, simp)
 
+_MUTATORS = {'append', 'extend', 'pop', 'setdefault', 'update', 'add', 'remove', 'discard', 'clear', 'insert', 'sort', 'reverse'}
 FP64_M = 52
 FP64_EONES = 0x7ff
 
@@ -33,6 +35,8 @@ class Intrinsics:
             return v is None
         if isinstance(t, ClassV):
             ci = t.info
+            if isinstance(v, containers.SymKey):   # containers
+                return containers.key_isinstance(P, v, ci)
             if isinstance(v, SObj):
                 return P.index.is_subclass(v.cls, ci)
             if isinstance(v, (EnumV, FlagV)):
@@ -119,6 +123,11 @@ class Intrinsics:
         raise Unsupported(f'external call {name}')
 
     def call_bound(self, P, name, recv, args, kwargs):
+        if name.startswith('sym'):   # containers
+            return containers.call_bound(P, name, recv, args, kwargs)
+        if P.loop_guard is not None and name.split('.')[0] in ('list', 'dict', 'set') \
+                and name.split('.')[1] in _MUTATORS:   # containers
+            containers.guard_concrete(P, recv)
         key = name.replace('.', '_')
         m = getattr(self, 'm_' + key, None)
         if m is None:
@@ -620,11 +629,31 @@ class Intrinsics:
             return b ** e
         return theory.ipow(as_z3int(b), as_z3int(e))
 
+    def _ghost_args(self, args):
+        zs = []
+        for a in args:
+            if isinstance(a, containers.SymKey):   # containers
+                zs.append(a.term)
+            elif is_boollike(a):
+                zs.append(as_z3bool(a))
+            else:
+                zs.append(as_z3int(a))
+        return zs
+
     def s_ghost(self, P, name, *args):
-        """uninterpreted ghost function (e.g. the next RNG draw); int arguments -> int"""
-        zs = [as_z3int(a) for a in args]
-        f = z3.Function(f'ghost_{name}', *([z3.IntSort()] * (len(zs) + 1)))
+        """uninterpreted ghost function (e.g. the next RNG draw); int / bool / key arguments -> int"""
+        zs = self._ghost_args(args)
+        f = z3.Function(f'ghost_{name}', *([z.sort() for z in zs] + [z3.IntSort()]))
         return f(*zs)
+
+    def s_ghost_pred(self, P, name, *args):
+        """uninterpreted ghost predicate; int / bool / key arguments -> bool"""
+        zs = self._ghost_args(args)
+        f = z3.Function(f'ghost_{name}', *([z.sort() for z in zs] + [z3.BoolSort()]))
+        return f(*zs)
+
+    def s_forall_keys(self, P, kname, fn):
+        return containers.forall_keys(P, kname, fn)
 
     def s_implies(self, P, a, b):
         a, b = P.truthy(a), P.truthy(b)
